@@ -96,8 +96,9 @@ class BaseCurve(Intface_BaseCurve):
             vecta, vectb = tuple(self.knotvector), tuple(other.knotvector)
             matra, matrb = heavy.MathOperations.add_spline_curve(vecta, vectb)
             curve = Curve(self.knotvector | other.knotvector)
-            ctrlpoints = np.array(matra) @ self.ctrlpoints
-            ctrlpoints = ctrlpoints + np.array(matrb) @ other.ctrlpoints
+            # Matrices of objects: integer points are summed as Python integers
+            ctrlpoints = np.array(matra, dtype="object") @ self.ctrlpoints
+            ctrlpoints = ctrlpoints + np.array(matrb, dtype="object") @ other.ctrlpoints
             curve.ctrlpoints = ctrlpoints
             return curve
         numa, dena = self.fraction()
